@@ -3,6 +3,8 @@
 package outofstoremessage
 
 import (
+	ds "github.com/ipfs/go-datastore"
+	dssync "github.com/ipfs/go-datastore/sync"
 	"bytes"
 	"context"
 	"fmt"
@@ -111,7 +113,10 @@ func TestVerifC14Service(t *testing.T) {
 			}
 
 			// O: another member device, announced to A, holding A's chain key
-			O, err := secretstore.NewInMemSecretStore(nil)
+			// O's keys live in a datastore of its own: the offline service is meant to be started on the ACCOUNT's datastore
+			// (WithRootDatastore) and to build its secret store from it
+			oDS := dssync.MutexWrap(ds.NewMapDatastore())
+			O, err := secretstore.NewSecretStore(oDS, nil)
 			if err != nil {
 				rep.Inconclusivef("secret store: %v", err)
 				return
@@ -167,12 +172,19 @@ func TestVerifC14Service(t *testing.T) {
 				rep.Inconclusivef("verif watchdog: A never registered O's chain key")
 				return
 			}
-			svcS, err := NewOutOfStoreMessageService(WithSecretStore(O))
+			// every other session builds the standalone service the documented offline way - the account's datastore and
+			// nothing else - instead of handing it the secret store
+			standaloneOpts := []OOSMOption{WithSecretStore(O)}
+			if sess%2 == 1 {
+				standaloneOpts = []OOSMOption{WithRootDatastore(oDS)}
+				rep.Count("standalone_services_built_from_the_root_datastore", 1)
+			}
+			svcS, err := NewOutOfStoreMessageService(standaloneOpts...)
 			if err != nil {
 				rep.Inconclusivef("standalone service: %v", err)
 				return
 			}
-			cliS, err := NewOutOfStoreMessageServiceClient(WithSecretStore(O))
+			cliS, err := NewOutOfStoreMessageServiceClient(standaloneOpts...)
 			if err != nil {
 				rep.Inconclusivef("standalone client: %v", err)
 				return
